@@ -382,7 +382,7 @@ static void c11_check(char *pat)
 	}
 }
 
-static void cmd_c11enum(char *alpha, int maxlen, int shard, int nshards, long budget)
+static void cmd_c11enum(char *alpha, int maxlen, int shard, int nshards, long budget, long resume)
 {
 	int na = strlen(alpha);
 	int idx[16];
@@ -393,11 +393,11 @@ static void cmd_c11enum(char *alpha, int maxlen, int shard, int nshards, long bu
 	for (len = 1; len <= maxlen; len++) {
 		memset(idx, 0, sizeof(idx));
 		while (1) {
-			if (count++ % nshards == shard) {
+			if (count++ % nshards == shard && count > resume) {
 				for (i = 0; i < len; i++)
 					pat[i] = alpha[idx[i]];
 				pat[len] = 0;
-				fprintf(stderr, "PAT %s\n", pat);
+				fprintf(stderr, "PAT %ld %s\n", count, pat);
 				c11_check(pat);
 			}
 			for (i = len - 1; i >= 0; i--) {
@@ -410,6 +410,7 @@ static void cmd_c11enum(char *alpha, int maxlen, int shard, int nshards, long bu
 		}
 	}
 	neatvi_verif_re_budget = 0;
+	fprintf(stderr, "PAT 0 -\n");
 	printf("DONE npat %ld ncomp %ld nrstr %ld nmatch %ld ncut %ld nanom %ld\n",
 		c11_npat, c11_ncomp, c11_nrstr, c11_nmatch, c11_ncut, c11_nanom);
 }
@@ -801,7 +802,7 @@ int main(int argc, char *argv[])
 			free(s);
 		} else if (!strcmp(tok[0], "c11enum")) {
 			char *a = unhex(tok[1]);
-			cmd_c11enum(a, atoi(tok[2]), atoi(tok[3]), atoi(tok[4]), atol(tok[5]));
+			cmd_c11enum(a, atoi(tok[2]), atoi(tok[3]), atoi(tok[4]), atol(tok[5]), nt > 6 ? atol(tok[6]) : 0);
 			free(a);
 		} else if (!strcmp(tok[0], "c11one")) {
 			char *a = unhex(tok[1]);
